@@ -29,7 +29,7 @@ ASSUMPTIONS = [
     "fan-out is limited to 6 cases at a time so that machine load is not the fault",
 ]
 SHARDS = {"quick": 6, "thorough": 6}
-FLOORS = {"quick": {"cases_with_fault_observed": 25, "calls_checked": 100, "instants_covered": 9},
+FLOORS = {"quick": {"cases_with_fault_observed": 25, "calls_checked": 70, "instants_covered": 9},
           "thorough": {"cases_with_fault_observed": 300, "calls_checked": 1200, "instants_covered": 9}}
 CHILD = os.path.join(harness.VERIF, "checks", "c10_child.py")
 INSTANTS = ["arg_unpickle", "task_start", "mid_task", "task_end", "result_pickle", "result_send_small", "result_send_large",
